@@ -111,9 +111,13 @@ def get_sparse_chemical_data(sparse, index, kind):
 def reset_sparse_chemical_data(sparse, data):
     if data is sparse: return
     dct = sparse.dct
+    if data.__class__ is SparseVector:
+        other = data.dct
+        # A dictionary view over the very dictionary that is cleared next must be read first
+        if getattr(other, 'dct', other) is getattr(dct, 'dct', dct): other = other.copy()
     dct.clear()
     if data.__class__ is SparseVector:
-        dct.update(data.dct)
+        dct.update(other)
     else:
         ndim = get_ndim(data)
         if ndim == 0:
